@@ -25,6 +25,14 @@ Definition same_cont (L L' : lid) : Prop :=
   end.
 Definition attached (s : state) (x : nat) : Prop := exists L, In x (lay s L).
 
+Lemma classic_lid : forall L L' : lid, L = L' \/ L <> L'.
+Proof.
+  intros [m|u g] [m'|u' g']; try (right; discriminate).
+  - destruct (Nat.eq_dec m m') as [->|NE]; [left; reflexivity|right; congruence].
+  - destruct (Nat.eq_dec u u') as [->|NE]; [|right; congruence].
+    destruct (Nat.eq_dec g g') as [->|NE]; [left; reflexivity|right; congruence].
+Qed.
+
 Record InvA (s : state) : Prop := {
   a_ok : forall L, ok (rel s) (sz s) 0 (lsz s L) (lay s L);
   a_lsize : forall m, glsize s m = gbytes s m * 8;
@@ -34,7 +42,8 @@ Record InvA (s : state) : Prop := {
   a_unalloc : forall u, (nsig s <= u)%nat -> ugroups s u = [];
   a_munalloc : forall m, (nmsg s <= m)%nat -> glay s m = [];
   a_refs : forall x e, (x < nsig s)%nat -> kind s x = KEnum e -> In x (erefs s e);
-  a_vals : forall e v, In v (evals s e) -> vpar s v = Some e /\ vidx s v <= emax s e /\ (v < nval s)%nat
+  a_vals : forall e v, In v (evals s e) -> vpar s v = Some e /\ vidx s v <= emax s e /\ (v < nval s)%nat;
+  a_size : forall x, 1 <= sz s x
 }.
 
 (* ---------------------------------------------------------------------------------------- *)
@@ -134,6 +143,238 @@ Proof. intros. unfold mux_add_signal. cbn. destruct (pmsg s u); reflexivity. Qed
 Lemma lcore_mux_remove : forall s u x, lcore (mux_remove_signal s u x) = lcore s.
 Proof. intros. unfold mux_remove_signal. cbn. destruct (pmsg s u); reflexivity. Qed.
 
+Lemma nsig_msg_add_signal : forall s m x, nsig (msg_add_signal s m x) = nsig s.
+Proof. intros. unfold msg_add_signal. cbn. try (destruct (pmsg s u)); reflexivity. Qed.
+#[export] Hint Rewrite nsig_msg_add_signal : reg.
+Lemma kind_msg_add_signal : forall s m x, kind (msg_add_signal s m x) = kind s.
+Proof. intros. unfold msg_add_signal. cbn. try (destruct (pmsg s u)); reflexivity. Qed.
+#[export] Hint Rewrite kind_msg_add_signal : reg.
+Lemma rel_msg_add_signal : forall s m x, rel (msg_add_signal s m x) = rel s.
+Proof. intros. unfold msg_add_signal. cbn. try (destruct (pmsg s u)); reflexivity. Qed.
+#[export] Hint Rewrite rel_msg_add_signal : reg.
+Lemma ugroups_msg_add_signal : forall s m x, ugroups (msg_add_signal s m x) = ugroups s.
+Proof. intros. unfold msg_add_signal. cbn. try (destruct (pmsg s u)); reflexivity. Qed.
+#[export] Hint Rewrite ugroups_msg_add_signal : reg.
+Lemma glsize_msg_add_signal : forall s m x, glsize (msg_add_signal s m x) = glsize s.
+Proof. intros. unfold msg_add_signal. cbn. try (destruct (pmsg s u)); reflexivity. Qed.
+#[export] Hint Rewrite glsize_msg_add_signal : reg.
+Lemma gbytes_msg_add_signal : forall s m x, gbytes (msg_add_signal s m x) = gbytes s.
+Proof. intros. unfold msg_add_signal. cbn. try (destruct (pmsg s u)); reflexivity. Qed.
+#[export] Hint Rewrite gbytes_msg_add_signal : reg.
+Lemma glay_msg_add_signal : forall s m x, glay (msg_add_signal s m x) = glay s.
+Proof. intros. unfold msg_add_signal. cbn. try (destruct (pmsg s u)); reflexivity. Qed.
+#[export] Hint Rewrite glay_msg_add_signal : reg.
+Lemma emax_msg_add_signal : forall s m x, emax (msg_add_signal s m x) = emax s.
+Proof. intros. unfold msg_add_signal. cbn. try (destruct (pmsg s u)); reflexivity. Qed.
+#[export] Hint Rewrite emax_msg_add_signal : reg.
+Lemma emin_msg_add_signal : forall s m x, emin (msg_add_signal s m x) = emin s.
+Proof. intros. unfold msg_add_signal. cbn. try (destruct (pmsg s u)); reflexivity. Qed.
+#[export] Hint Rewrite emin_msg_add_signal : reg.
+Lemma erefs_msg_add_signal : forall s m x, erefs (msg_add_signal s m x) = erefs s.
+Proof. intros. unfold msg_add_signal. cbn. try (destruct (pmsg s u)); reflexivity. Qed.
+#[export] Hint Rewrite erefs_msg_add_signal : reg.
+Lemma evals_msg_add_signal : forall s m x, evals (msg_add_signal s m x) = evals s.
+Proof. intros. unfold msg_add_signal. cbn. try (destruct (pmsg s u)); reflexivity. Qed.
+#[export] Hint Rewrite evals_msg_add_signal : reg.
+Lemma vpar_msg_add_signal : forall s m x, vpar (msg_add_signal s m x) = vpar s.
+Proof. intros. unfold msg_add_signal. cbn. try (destruct (pmsg s u)); reflexivity. Qed.
+#[export] Hint Rewrite vpar_msg_add_signal : reg.
+Lemma vidx_msg_add_signal : forall s m x, vidx (msg_add_signal s m x) = vidx s.
+Proof. intros. unfold msg_add_signal. cbn. try (destruct (pmsg s u)); reflexivity. Qed.
+#[export] Hint Rewrite vidx_msg_add_signal : reg.
+Lemma nval_msg_add_signal : forall s m x, nval (msg_add_signal s m x) = nval s.
+Proof. intros. unfold msg_add_signal. cbn. try (destruct (pmsg s u)); reflexivity. Qed.
+#[export] Hint Rewrite nval_msg_add_signal : reg.
+Lemma nmsg_msg_add_signal : forall s m x, nmsg (msg_add_signal s m x) = nmsg s.
+Proof. intros. unfold msg_add_signal. cbn. try (destruct (pmsg s u)); reflexivity. Qed.
+#[export] Hint Rewrite nmsg_msg_add_signal : reg.
+Lemma ufixed_msg_add_signal : forall s m x, ufixed (msg_add_signal s m x) = ufixed s.
+Proof. intros. unfold msg_add_signal. cbn. try (destruct (pmsg s u)); reflexivity. Qed.
+#[export] Hint Rewrite ufixed_msg_add_signal : reg.
+Lemma ugids_msg_add_signal : forall s m x, ugids (msg_add_signal s m x) = ugids s.
+Proof. intros. unfold msg_add_signal. cbn. try (destruct (pmsg s u)); reflexivity. Qed.
+#[export] Hint Rewrite ugids_msg_add_signal : reg.
+Lemma nenum_msg_add_signal : forall s m x, nenum (msg_add_signal s m x) = nenum s.
+Proof. intros. unfold msg_add_signal. cbn. try (destruct (pmsg s u)); reflexivity. Qed.
+#[export] Hint Rewrite nenum_msg_add_signal : reg.
+Lemma eidx_msg_add_signal : forall s m x, eidx (msg_add_signal s m x) = eidx s.
+Proof. intros. unfold msg_add_signal. cbn. try (destruct (pmsg s u)); reflexivity. Qed.
+#[export] Hint Rewrite eidx_msg_add_signal : reg.
+Lemma nsig_msg_remove_signal : forall s m x, nsig (msg_remove_signal s m x) = nsig s.
+Proof. intros. unfold msg_remove_signal. cbn. try (destruct (pmsg s u)); reflexivity. Qed.
+#[export] Hint Rewrite nsig_msg_remove_signal : reg.
+Lemma kind_msg_remove_signal : forall s m x, kind (msg_remove_signal s m x) = kind s.
+Proof. intros. unfold msg_remove_signal. cbn. try (destruct (pmsg s u)); reflexivity. Qed.
+#[export] Hint Rewrite kind_msg_remove_signal : reg.
+Lemma rel_msg_remove_signal : forall s m x, rel (msg_remove_signal s m x) = rel s.
+Proof. intros. unfold msg_remove_signal. cbn. try (destruct (pmsg s u)); reflexivity. Qed.
+#[export] Hint Rewrite rel_msg_remove_signal : reg.
+Lemma ugroups_msg_remove_signal : forall s m x, ugroups (msg_remove_signal s m x) = ugroups s.
+Proof. intros. unfold msg_remove_signal. cbn. try (destruct (pmsg s u)); reflexivity. Qed.
+#[export] Hint Rewrite ugroups_msg_remove_signal : reg.
+Lemma glsize_msg_remove_signal : forall s m x, glsize (msg_remove_signal s m x) = glsize s.
+Proof. intros. unfold msg_remove_signal. cbn. try (destruct (pmsg s u)); reflexivity. Qed.
+#[export] Hint Rewrite glsize_msg_remove_signal : reg.
+Lemma gbytes_msg_remove_signal : forall s m x, gbytes (msg_remove_signal s m x) = gbytes s.
+Proof. intros. unfold msg_remove_signal. cbn. try (destruct (pmsg s u)); reflexivity. Qed.
+#[export] Hint Rewrite gbytes_msg_remove_signal : reg.
+Lemma glay_msg_remove_signal : forall s m x, glay (msg_remove_signal s m x) = glay s.
+Proof. intros. unfold msg_remove_signal. cbn. try (destruct (pmsg s u)); reflexivity. Qed.
+#[export] Hint Rewrite glay_msg_remove_signal : reg.
+Lemma emax_msg_remove_signal : forall s m x, emax (msg_remove_signal s m x) = emax s.
+Proof. intros. unfold msg_remove_signal. cbn. try (destruct (pmsg s u)); reflexivity. Qed.
+#[export] Hint Rewrite emax_msg_remove_signal : reg.
+Lemma emin_msg_remove_signal : forall s m x, emin (msg_remove_signal s m x) = emin s.
+Proof. intros. unfold msg_remove_signal. cbn. try (destruct (pmsg s u)); reflexivity. Qed.
+#[export] Hint Rewrite emin_msg_remove_signal : reg.
+Lemma erefs_msg_remove_signal : forall s m x, erefs (msg_remove_signal s m x) = erefs s.
+Proof. intros. unfold msg_remove_signal. cbn. try (destruct (pmsg s u)); reflexivity. Qed.
+#[export] Hint Rewrite erefs_msg_remove_signal : reg.
+Lemma evals_msg_remove_signal : forall s m x, evals (msg_remove_signal s m x) = evals s.
+Proof. intros. unfold msg_remove_signal. cbn. try (destruct (pmsg s u)); reflexivity. Qed.
+#[export] Hint Rewrite evals_msg_remove_signal : reg.
+Lemma vpar_msg_remove_signal : forall s m x, vpar (msg_remove_signal s m x) = vpar s.
+Proof. intros. unfold msg_remove_signal. cbn. try (destruct (pmsg s u)); reflexivity. Qed.
+#[export] Hint Rewrite vpar_msg_remove_signal : reg.
+Lemma vidx_msg_remove_signal : forall s m x, vidx (msg_remove_signal s m x) = vidx s.
+Proof. intros. unfold msg_remove_signal. cbn. try (destruct (pmsg s u)); reflexivity. Qed.
+#[export] Hint Rewrite vidx_msg_remove_signal : reg.
+Lemma nval_msg_remove_signal : forall s m x, nval (msg_remove_signal s m x) = nval s.
+Proof. intros. unfold msg_remove_signal. cbn. try (destruct (pmsg s u)); reflexivity. Qed.
+#[export] Hint Rewrite nval_msg_remove_signal : reg.
+Lemma nmsg_msg_remove_signal : forall s m x, nmsg (msg_remove_signal s m x) = nmsg s.
+Proof. intros. unfold msg_remove_signal. cbn. try (destruct (pmsg s u)); reflexivity. Qed.
+#[export] Hint Rewrite nmsg_msg_remove_signal : reg.
+Lemma ufixed_msg_remove_signal : forall s m x, ufixed (msg_remove_signal s m x) = ufixed s.
+Proof. intros. unfold msg_remove_signal. cbn. try (destruct (pmsg s u)); reflexivity. Qed.
+#[export] Hint Rewrite ufixed_msg_remove_signal : reg.
+Lemma ugids_msg_remove_signal : forall s m x, ugids (msg_remove_signal s m x) = ugids s.
+Proof. intros. unfold msg_remove_signal. cbn. try (destruct (pmsg s u)); reflexivity. Qed.
+#[export] Hint Rewrite ugids_msg_remove_signal : reg.
+Lemma nenum_msg_remove_signal : forall s m x, nenum (msg_remove_signal s m x) = nenum s.
+Proof. intros. unfold msg_remove_signal. cbn. try (destruct (pmsg s u)); reflexivity. Qed.
+#[export] Hint Rewrite nenum_msg_remove_signal : reg.
+Lemma eidx_msg_remove_signal : forall s m x, eidx (msg_remove_signal s m x) = eidx s.
+Proof. intros. unfold msg_remove_signal. cbn. try (destruct (pmsg s u)); reflexivity. Qed.
+#[export] Hint Rewrite eidx_msg_remove_signal : reg.
+Lemma nsig_mux_add_signal : forall s u x, nsig (mux_add_signal s u x) = nsig s.
+Proof. intros. unfold mux_add_signal. cbn. try (destruct (pmsg s u)); reflexivity. Qed.
+#[export] Hint Rewrite nsig_mux_add_signal : reg.
+Lemma kind_mux_add_signal : forall s u x, kind (mux_add_signal s u x) = kind s.
+Proof. intros. unfold mux_add_signal. cbn. try (destruct (pmsg s u)); reflexivity. Qed.
+#[export] Hint Rewrite kind_mux_add_signal : reg.
+Lemma rel_mux_add_signal : forall s u x, rel (mux_add_signal s u x) = rel s.
+Proof. intros. unfold mux_add_signal. cbn. try (destruct (pmsg s u)); reflexivity. Qed.
+#[export] Hint Rewrite rel_mux_add_signal : reg.
+Lemma ugroups_mux_add_signal : forall s u x, ugroups (mux_add_signal s u x) = ugroups s.
+Proof. intros. unfold mux_add_signal. cbn. try (destruct (pmsg s u)); reflexivity. Qed.
+#[export] Hint Rewrite ugroups_mux_add_signal : reg.
+Lemma glsize_mux_add_signal : forall s u x, glsize (mux_add_signal s u x) = glsize s.
+Proof. intros. unfold mux_add_signal. cbn. try (destruct (pmsg s u)); reflexivity. Qed.
+#[export] Hint Rewrite glsize_mux_add_signal : reg.
+Lemma gbytes_mux_add_signal : forall s u x, gbytes (mux_add_signal s u x) = gbytes s.
+Proof. intros. unfold mux_add_signal. cbn. try (destruct (pmsg s u)); reflexivity. Qed.
+#[export] Hint Rewrite gbytes_mux_add_signal : reg.
+Lemma glay_mux_add_signal : forall s u x, glay (mux_add_signal s u x) = glay s.
+Proof. intros. unfold mux_add_signal. cbn. try (destruct (pmsg s u)); reflexivity. Qed.
+#[export] Hint Rewrite glay_mux_add_signal : reg.
+Lemma emax_mux_add_signal : forall s u x, emax (mux_add_signal s u x) = emax s.
+Proof. intros. unfold mux_add_signal. cbn. try (destruct (pmsg s u)); reflexivity. Qed.
+#[export] Hint Rewrite emax_mux_add_signal : reg.
+Lemma emin_mux_add_signal : forall s u x, emin (mux_add_signal s u x) = emin s.
+Proof. intros. unfold mux_add_signal. cbn. try (destruct (pmsg s u)); reflexivity. Qed.
+#[export] Hint Rewrite emin_mux_add_signal : reg.
+Lemma erefs_mux_add_signal : forall s u x, erefs (mux_add_signal s u x) = erefs s.
+Proof. intros. unfold mux_add_signal. cbn. try (destruct (pmsg s u)); reflexivity. Qed.
+#[export] Hint Rewrite erefs_mux_add_signal : reg.
+Lemma evals_mux_add_signal : forall s u x, evals (mux_add_signal s u x) = evals s.
+Proof. intros. unfold mux_add_signal. cbn. try (destruct (pmsg s u)); reflexivity. Qed.
+#[export] Hint Rewrite evals_mux_add_signal : reg.
+Lemma vpar_mux_add_signal : forall s u x, vpar (mux_add_signal s u x) = vpar s.
+Proof. intros. unfold mux_add_signal. cbn. try (destruct (pmsg s u)); reflexivity. Qed.
+#[export] Hint Rewrite vpar_mux_add_signal : reg.
+Lemma vidx_mux_add_signal : forall s u x, vidx (mux_add_signal s u x) = vidx s.
+Proof. intros. unfold mux_add_signal. cbn. try (destruct (pmsg s u)); reflexivity. Qed.
+#[export] Hint Rewrite vidx_mux_add_signal : reg.
+Lemma nval_mux_add_signal : forall s u x, nval (mux_add_signal s u x) = nval s.
+Proof. intros. unfold mux_add_signal. cbn. try (destruct (pmsg s u)); reflexivity. Qed.
+#[export] Hint Rewrite nval_mux_add_signal : reg.
+Lemma nmsg_mux_add_signal : forall s u x, nmsg (mux_add_signal s u x) = nmsg s.
+Proof. intros. unfold mux_add_signal. cbn. try (destruct (pmsg s u)); reflexivity. Qed.
+#[export] Hint Rewrite nmsg_mux_add_signal : reg.
+Lemma ufixed_mux_add_signal : forall s u x, ufixed (mux_add_signal s u x) = ufixed s.
+Proof. intros. unfold mux_add_signal. cbn. try (destruct (pmsg s u)); reflexivity. Qed.
+#[export] Hint Rewrite ufixed_mux_add_signal : reg.
+Lemma ugids_mux_add_signal : forall s u x, ugids (mux_add_signal s u x) = ugids s.
+Proof. intros. unfold mux_add_signal. cbn. try (destruct (pmsg s u)); reflexivity. Qed.
+#[export] Hint Rewrite ugids_mux_add_signal : reg.
+Lemma nenum_mux_add_signal : forall s u x, nenum (mux_add_signal s u x) = nenum s.
+Proof. intros. unfold mux_add_signal. cbn. try (destruct (pmsg s u)); reflexivity. Qed.
+#[export] Hint Rewrite nenum_mux_add_signal : reg.
+Lemma eidx_mux_add_signal : forall s u x, eidx (mux_add_signal s u x) = eidx s.
+Proof. intros. unfold mux_add_signal. cbn. try (destruct (pmsg s u)); reflexivity. Qed.
+#[export] Hint Rewrite eidx_mux_add_signal : reg.
+Lemma nsig_mux_remove_signal : forall s u x, nsig (mux_remove_signal s u x) = nsig s.
+Proof. intros. unfold mux_remove_signal. cbn. try (destruct (pmsg s u)); reflexivity. Qed.
+#[export] Hint Rewrite nsig_mux_remove_signal : reg.
+Lemma kind_mux_remove_signal : forall s u x, kind (mux_remove_signal s u x) = kind s.
+Proof. intros. unfold mux_remove_signal. cbn. try (destruct (pmsg s u)); reflexivity. Qed.
+#[export] Hint Rewrite kind_mux_remove_signal : reg.
+Lemma rel_mux_remove_signal : forall s u x, rel (mux_remove_signal s u x) = rel s.
+Proof. intros. unfold mux_remove_signal. cbn. try (destruct (pmsg s u)); reflexivity. Qed.
+#[export] Hint Rewrite rel_mux_remove_signal : reg.
+Lemma ugroups_mux_remove_signal : forall s u x, ugroups (mux_remove_signal s u x) = ugroups s.
+Proof. intros. unfold mux_remove_signal. cbn. try (destruct (pmsg s u)); reflexivity. Qed.
+#[export] Hint Rewrite ugroups_mux_remove_signal : reg.
+Lemma glsize_mux_remove_signal : forall s u x, glsize (mux_remove_signal s u x) = glsize s.
+Proof. intros. unfold mux_remove_signal. cbn. try (destruct (pmsg s u)); reflexivity. Qed.
+#[export] Hint Rewrite glsize_mux_remove_signal : reg.
+Lemma gbytes_mux_remove_signal : forall s u x, gbytes (mux_remove_signal s u x) = gbytes s.
+Proof. intros. unfold mux_remove_signal. cbn. try (destruct (pmsg s u)); reflexivity. Qed.
+#[export] Hint Rewrite gbytes_mux_remove_signal : reg.
+Lemma glay_mux_remove_signal : forall s u x, glay (mux_remove_signal s u x) = glay s.
+Proof. intros. unfold mux_remove_signal. cbn. try (destruct (pmsg s u)); reflexivity. Qed.
+#[export] Hint Rewrite glay_mux_remove_signal : reg.
+Lemma emax_mux_remove_signal : forall s u x, emax (mux_remove_signal s u x) = emax s.
+Proof. intros. unfold mux_remove_signal. cbn. try (destruct (pmsg s u)); reflexivity. Qed.
+#[export] Hint Rewrite emax_mux_remove_signal : reg.
+Lemma emin_mux_remove_signal : forall s u x, emin (mux_remove_signal s u x) = emin s.
+Proof. intros. unfold mux_remove_signal. cbn. try (destruct (pmsg s u)); reflexivity. Qed.
+#[export] Hint Rewrite emin_mux_remove_signal : reg.
+Lemma erefs_mux_remove_signal : forall s u x, erefs (mux_remove_signal s u x) = erefs s.
+Proof. intros. unfold mux_remove_signal. cbn. try (destruct (pmsg s u)); reflexivity. Qed.
+#[export] Hint Rewrite erefs_mux_remove_signal : reg.
+Lemma evals_mux_remove_signal : forall s u x, evals (mux_remove_signal s u x) = evals s.
+Proof. intros. unfold mux_remove_signal. cbn. try (destruct (pmsg s u)); reflexivity. Qed.
+#[export] Hint Rewrite evals_mux_remove_signal : reg.
+Lemma vpar_mux_remove_signal : forall s u x, vpar (mux_remove_signal s u x) = vpar s.
+Proof. intros. unfold mux_remove_signal. cbn. try (destruct (pmsg s u)); reflexivity. Qed.
+#[export] Hint Rewrite vpar_mux_remove_signal : reg.
+Lemma vidx_mux_remove_signal : forall s u x, vidx (mux_remove_signal s u x) = vidx s.
+Proof. intros. unfold mux_remove_signal. cbn. try (destruct (pmsg s u)); reflexivity. Qed.
+#[export] Hint Rewrite vidx_mux_remove_signal : reg.
+Lemma nval_mux_remove_signal : forall s u x, nval (mux_remove_signal s u x) = nval s.
+Proof. intros. unfold mux_remove_signal. cbn. try (destruct (pmsg s u)); reflexivity. Qed.
+#[export] Hint Rewrite nval_mux_remove_signal : reg.
+Lemma nmsg_mux_remove_signal : forall s u x, nmsg (mux_remove_signal s u x) = nmsg s.
+Proof. intros. unfold mux_remove_signal. cbn. try (destruct (pmsg s u)); reflexivity. Qed.
+#[export] Hint Rewrite nmsg_mux_remove_signal : reg.
+Lemma ufixed_mux_remove_signal : forall s u x, ufixed (mux_remove_signal s u x) = ufixed s.
+Proof. intros. unfold mux_remove_signal. cbn. try (destruct (pmsg s u)); reflexivity. Qed.
+#[export] Hint Rewrite ufixed_mux_remove_signal : reg.
+Lemma ugids_mux_remove_signal : forall s u x, ugids (mux_remove_signal s u x) = ugids s.
+Proof. intros. unfold mux_remove_signal. cbn. try (destruct (pmsg s u)); reflexivity. Qed.
+#[export] Hint Rewrite ugids_mux_remove_signal : reg.
+Lemma nenum_mux_remove_signal : forall s u x, nenum (mux_remove_signal s u x) = nenum s.
+Proof. intros. unfold mux_remove_signal. cbn. try (destruct (pmsg s u)); reflexivity. Qed.
+#[export] Hint Rewrite nenum_mux_remove_signal : reg.
+Lemma eidx_mux_remove_signal : forall s u x, eidx (mux_remove_signal s u x) = eidx s.
+Proof. intros. unfold mux_remove_signal. cbn. try (destruct (pmsg s u)); reflexivity. Qed.
+#[export] Hint Rewrite eidx_mux_remove_signal : reg.
+
+Lemma sz_reg : forall s s', kind s' = kind s -> emax s' = emax s -> emin s' = emin s -> forall x, sz s' x = sz s x.
+Proof. intros s s' A B C x. unfold sz, esize. rewrite A, B, C. reflexivity. Qed.
+
 Lemma sz_core : forall s s', kind s' = kind s -> emax s' = emax s -> emin s' = emin s -> sz s' = sz s.
 Proof. intros s s' Hk Hx Hn. unfold sz, esize. rewrite Hk, Hx, Hn. reflexivity. Qed.
 
@@ -153,6 +394,7 @@ Proof.
   - intros m. rewrite E15, E7. apply a_munalloc0.
   - intros x e. rewrite E1, E2, E10. apply a_refs0.
   - intros e v. rewrite E11, E12, E13, E14, E8. apply a_vals0.
+  - intros x. rewrite Hsz. apply a_size0.
 Qed.
 
 (* ---------------------------------------------------------------------------------------- *)
@@ -229,6 +471,7 @@ Proof.
   - intros m Hm. apply (a_munalloc s H). lia.
   - exact (a_refs s H).
   - exact (a_vals s H).
+  - exact (a_size s H).
 Qed.
 
 (* a fresh signal handle: only its kind (and enum refs / empty groups) is written *)
@@ -242,9 +485,10 @@ Lemma inv_alloc_sig : forall s s' k,
   evals s' = evals s -> vpar s' = vpar s -> vidx s' = vidx s -> nval s' = nval s ->
   (forall e x, In x (erefs s e) -> In x (erefs s' e)) ->
   (forall e, k = KEnum e -> In (nsig s) (erefs s' e)) ->
+  1 <= sz s' (nsig s) ->
   InvA s'.
 Proof.
-  intros s s' k H En Ek Er Eg Eg0 Els Egb Egl Enm Emx Emn Eev Evp Evi Env Hrefs Hk.
+  intros s s' k H En Ek Er Eg Eg0 Els Egb Egl Enm Emx Emn Eev Evp Evi Env Hrefs Hk Hsize.
   assert (Hsz : forall x, x <> nsig s -> sz s' x = sz s x).
   { intros x Hx. unfold sz, esize. rewrite Ek, Emx, Emn. rewrite upd_other by exact Hx. reflexivity. }
   assert (Hlay : forall L, lay s' L = lay s L).
@@ -272,15 +516,17 @@ Proof.
     + intros ->. apply Hk. reflexivity.
     + intros Hke. apply Hrefs. apply (a_refs s H); [lia|exact Hke].
   - intros e v. rewrite Eev, Evp, Evi, Env, Emx. apply (a_vals s H).
+  - intros x. destruct (Nat.eq_dec x (nsig s)) as [->|NE]; [exact Hsize|rewrite Hsz by exact NE; apply (a_size s H)].
 Qed.
 
 Lemma inv_new_std : forall s n, InvA s -> InvA (fst (step s (ONewStd n))).
 Proof.
-  intros s n H. cbn [step]. destruct (n <? 0); [exact H|]. destruct (n =? 0); [exact H|]. cbn [fst].
+  intros s n H. cbn [step]. destruct (Z.ltb_spec n 0); [exact H|]. destruct (Z.eqb_spec n 0); [exact H|]. cbn [fst].
   eapply (inv_alloc_sig s _ (KStd n) H); try reflexivity.
   - intros g. cbn. rewrite (a_unalloc s H) by lia. destruct g; reflexivity.
   - intros e x Hx. exact Hx.
   - intros e E. discriminate.
+  - unfold sz. cbn. rewrite upd_same. lia.
 Qed.
 
 Lemma inv_new_enum : forall s, InvA s -> InvA (fst (step s ONewEnum)).
@@ -294,6 +540,7 @@ Proof.
   - intros e' x Hx. cbn. unfold upd. destruct (Nat.eqb_spec e' e) as [->|NE]; [|exact Hx].
     apply ladd_In. right. exact Hx.
   - intros e' E. inversion E; subst. cbn. rewrite upd_same. apply ladd_In. left. reflexivity.
+  - unfold sz, esize. cbn. rewrite upd_same. apply esize_of_pos. apply (a_emax s H).
 Qed.
 
 Lemma nth_repeat_nil : forall {A} n g, nth g (repeat (@nil A) n) [] = [].
@@ -301,13 +548,14 @@ Proof. induction n; intros g; cbn; destruct g; auto. Qed.
 
 Lemma inv_new_mux : forall s c g, InvA s -> InvA (fst (step s (ONewMux c g))).
 Proof.
-  intros s c g H. cbn [step]. destruct (c <? 0); [exact H|]. destruct (c =? 0); [exact H|].
-  destruct (g <? 0); [exact H|]. destruct (g =? 0); [exact H|]. cbn [fst].
+  intros s c g H. cbn [step]. destruct (Z.ltb_spec c 0); [exact H|]. destruct (Z.eqb_spec c 0); [exact H|].
+  destruct (Z.ltb_spec g 0); [exact H|]. destruct (Z.eqb_spec g 0); [exact H|]. cbn [fst].
   eapply (inv_alloc_sig s _ (KMux c g) H); try reflexivity.
   - intros u Hu. cbn. rewrite upd_other by exact Hu. reflexivity.
   - intros g'. cbn. rewrite upd_same. apply nth_repeat_nil.
   - intros e x Hx. exact Hx.
   - intros e E. discriminate.
+  - unfold sz, selw. cbn. rewrite upd_same. pose proof (calc_size_pos (c - 1) ltac:(lia)). lia.
 Qed.
 
 (* --- operations that only rearrange layouts (lists and positions) ----------------------------- *)
@@ -338,43 +586,42 @@ Proof.
   - intros m. rewrite Enm. apply Hmun.
   - intros x e. rewrite En, Ek, Erf. apply (a_refs s H).
   - intros e v. rewrite Eev, Evp, Evi, Env, Emx. apply (a_vals s H).
+  - intros x. rewrite Hsz. apply (a_size s H).
 Qed.
 
 (* layouts that only lose elements *)
+Definition sub (l' l : list nat) : Prop :=
+  (forall pos len lo size, ok pos len lo size l -> ok pos len lo size l') /\ (forall x, In x l' -> In x l).
+
+Lemma sub_refl : forall l, sub l l.
+Proof. intros l. split; auto. Qed.
+Lemma sub_trans : forall a b c, sub a b -> sub b c -> sub a c.
+Proof. intros a b c [A1 A2] [B1 B2]. split; auto. Qed.
+Lemma sub_filter : forall f l, sub (filter f l) l.
+Proof. intros f l. split; [intros; apply ok_filter; assumption|intros x Hx; apply filter_In in Hx; tauto]. Qed.
+Lemma sub_nil : forall l, sub [] l.
+Proof. intros l. split; [intros; exact I|intros x []]. Qed.
+
 Lemma InvA_shrink_lists : forall s s',
   InvA s ->
   nsig s' = nsig s -> kind s' = kind s -> glsize s' = glsize s -> gbytes s' = gbytes s -> nmsg s' = nmsg s ->
   emax s' = emax s -> emin s' = emin s -> erefs s' = erefs s ->
   evals s' = evals s -> vpar s' = vpar s -> vidx s' = vidx s -> nval s' = nval s -> rel s' = rel s ->
-  (forall L, exists f, lay s' L = filter f (lay s L)) ->
+  (forall L, sub (lay s' L) (lay s L)) ->
   (forall u, (nsig s <= u)%nat -> ugroups s' u = []) ->
   InvA s'.
 Proof.
   intros s s' H En Ek Els Egb Enm Emx Emn Erf Eev Evp Evi Env Er Hf Hun.
-  assert (Hincl : forall L x, In x (lay s' L) -> In x (lay s L)).
-  { intros L x. destruct (Hf L) as [f ->]. rewrite filter_In. tauto. }
   eapply (InvA_layouts s s' H); try assumption.
-  - intros L. rewrite Er. destruct (Hf L) as [f ->]. apply ok_filter. apply (a_ok s H).
-  - intros L L' x H1 H2. eapply (a_excl s H); eauto.
-  - intros L x Hx. eapply (a_alloc s H); eauto.
-  - intros m Hm. destruct (Hf (LM m)) as [f E]. cbn [lay] in E. rewrite E, (a_munalloc s H m Hm). reflexivity.
+  - intros L. rewrite Er. apply (proj1 (Hf L)). apply (a_ok s H).
+  - intros L L' x H1 H2. eapply (a_excl s H); [apply (proj2 (Hf L))|apply (proj2 (Hf L'))]; eassumption.
+  - intros L x Hx. eapply (a_alloc s H). apply (proj2 (Hf L)). exact Hx.
+  - intros m Hm. destruct (Hf (LM m)) as [_ E]. cbn [lay] in E. rewrite (a_munalloc s H m Hm) in E.
+    destruct (glay s' m) as [|a r]; [reflexivity|]. exfalso. apply (E a). left; reflexivity.
 Qed.
 
 Lemma filter_true : forall {A} (l : list A), filter (fun _ => true) l = l.
 Proof. induction l; cbn; congruence. Qed.
-
-Lemma inv_remove : forall s m x, InvA s -> InvA (fst (step_remove s m x)).
-Proof.
-  intros s m x H. unfold step_remove. destruct (negb (memb x (gsigs s m))); [exact H|]. cbn [fst].
-  assert (H1 : InvA (msg_remove_signal s m x)) by (eapply InvA_core; [apply lcore_msg_remove|exact H]).
-  eapply (InvA_shrink_lists (msg_remove_signal s m x)); try reflexivity; [exact H1| |].
-  - intros [m'|u g]; cbn [lay].
-    + cbn. unfold upd. destruct (Nat.eqb_spec m' m) as [->|NE].
-      * eexists. unfold do_remove. reflexivity.
-      * exists (fun _ => true). symmetry. apply filter_true.
-    + exists (fun _ => true). symmetry. apply filter_true.
-  - intros u Hu. apply (a_unalloc _ H1). exact Hu.
-Qed.
 
 Lemma filter_false : forall {A} (l : list A), filter (fun _ => false) l = [].
 Proof. induction l; cbn; congruence. Qed.
@@ -382,23 +629,501 @@ Proof. induction l; cbn; congruence. Qed.
 Lemma inv_remove_all : forall s m, InvA s -> InvA (fst (step_remove_all s m)).
 Proof.
   intros s m H. unfold step_remove_all. cbn [fst].
-  eapply (InvA_shrink_lists s); try reflexivity; [exact H| |].
-  - intros [m'|u g]; cbn [lay].
-    + cbn. unfold upd. destruct (Nat.eqb_spec m' m) as [->|NE].
-      * exists (fun _ => false). symmetry. apply filter_false.
-      * exists (fun _ => true). symmetry. apply filter_true.
-    + exists (fun _ => true). symmetry. apply filter_true.
-  - intros u Hu. cbn. apply (a_unalloc _ H). exact Hu.
+  assert (Hf : forall L, sub (lay (set_glay
+         (set_gnames (set_gsigs (set_pmsg_all s (gsigs s m) None) (upd (gsigs (set_pmsg_all s (gsigs s m) None)) m []))
+            (upd (gnames (set_gsigs (set_pmsg_all s (gsigs s m) None) (upd (gsigs (set_pmsg_all s (gsigs s m) None)) m []))) m []))
+         (upd (glay s) m [])) L) (lay s L)).
+  { intros [m'|u g]; cbn [lay].
+    - cbn. unfold upd. destruct (Nat.eqb_spec m' m) as [->|NE]; [apply sub_nil|apply sub_refl].
+    - apply sub_refl. }
+  eapply (InvA_shrink_lists s); try reflexivity; try exact H; try exact Hf.
+  intros u Hu. cbn. apply (a_unalloc _ H). exact Hu.
 Qed.
 
-(* positions change inside one message layout only *)
-Lemma InvA_rel_msg : forall s m pos',
+(* positions change only on signals that live in the single layout L0 *)
+Lemma InvA_rel_one : forall s L0 pos',
   InvA s ->
-  ok pos' (sz s) 0 (glsize s m) (glay s m) ->
-  (forall y, ~ In y (glay s m) -> pos' y = rel s y) ->
+  ok pos' (sz s) 0 (lsz s L0) (lay s L0) ->
+  (forall y, pos' y <> rel s y -> In y (lay s L0) /\ forall L, In y (lay s L) -> L = L0) ->
   InvA (set_rel s pos').
 Proof.
-  intros s m pos' H Hok Hfr.
+  intros s L0 pos' H Hok Hfr.
   eapply (InvA_layouts s); try reflexivity; try exact H.
-  - intros L. destruct (lid_eq_dec_msg L m) as [->|NE].
-Abort.
+  - intros L. change (lay (set_rel s pos') L) with (lay s L). change (rel (set_rel s pos')) with pos'.
+    destruct (classic_lid L L0) as [->|NE]; [exact Hok|].
+    eapply ok_ext; [|apply (a_ok s H L)]. intros t Ht. split; [|reflexivity].
+    destruct (Z.eq_dec (pos' t) (rel s t)) as [E|NE']; [exact E|].
+    destruct (Hfr t NE') as [_ Hu]. exfalso. apply NE. apply Hu. exact Ht.
+  - intros L L' x. apply (a_excl s H).
+  - intros L x. apply (a_alloc s H).
+  - apply (a_unalloc s H).
+  - apply (a_munalloc s H).
+Qed.
+
+(* a signal of a message layout is in no other layout *)
+Lemma msg_only : forall s m x L, InvA s -> In x (glay s m) -> In x (lay s L) -> L = LM m.
+Proof.
+  intros s m x L H Hin HL. pose proof (a_excl s H (LM m) L x Hin HL) as E.
+  destruct L as [m'|u g]; cbn in E; [subst; reflexivity|contradiction].
+Qed.
+
+Lemma inv_compact : forall s m, InvA s -> InvA (fst (step_compact s m)).
+Proof.
+  intros s m H. unfold step_compact. cbn [fst].
+  destruct (ok_compact (rel s) (sz s) (glay s m) (glsize s m) (a_ok s H (LM m))) as (Hok & _ & Hfr).
+  apply (InvA_rel_one s (LM m)); [exact H|exact Hok|].
+  intros y Hy. destruct (in_dec Nat.eq_dec y (glay s m)) as [Hin|Hn]; [|exfalso; apply Hy; apply Hfr; exact Hn].
+  split; [exact Hin|]. intros L HL. eapply msg_only; eauto.
+Qed.
+
+Lemma do_shift_left_frame : forall len pos l x a y, y <> x -> fst (do_shift_left len pos l x a) y = pos y.
+Proof.
+  intros * Hy. unfold do_shift_left. destruct (a <=? 0); [reflexivity|].
+  destruct (in_dec Nat.eq_dec x l) as [Hin|Hn].
+  - rewrite (shl_loop_spec len l pos x a None Hin). cbn [fst]. apply upd_other. exact Hy.
+  - rewrite shl_loop_notin by exact Hn. reflexivity.
+Qed.
+Lemma do_shift_right_frame : forall len pos size l x a y, y <> x -> fst (do_shift_right len pos size l x a) y = pos y.
+Proof.
+  intros * Hy. unfold do_shift_right. destruct (a <=? 0); [reflexivity|].
+  revert pos. induction l as [|t r IH]; intros pos; cbn [shr_loop]; [reflexivity|].
+  destruct (Nat.eqb_spec x t) as [->|NE]; [|apply IH].
+  cbn [fst]. apply upd_other. exact Hy.
+Qed.
+Lemma do_shift_left_notin : forall len pos l x a, ~ In x l -> fst (do_shift_left len pos l x a) = pos.
+Proof.
+  intros * Hn. unfold do_shift_left. destruct (a <=? 0); [reflexivity|]. rewrite shl_loop_notin by exact Hn. reflexivity.
+Qed.
+Lemma do_shift_right_notin : forall len pos size l x a, ~ In x l -> fst (do_shift_right len pos size l x a) = pos.
+Proof.
+  intros * Hn. unfold do_shift_right. destruct (a <=? 0); [reflexivity|]. rewrite shr_loop_notin by exact Hn. reflexivity.
+Qed.
+
+Lemma inv_shift : forall left s m x a, InvA s -> InvA (fst (step_shift left s m x a)).
+Proof.
+  intros left s m x a H. unfold step_shift. destruct (negb (memb x (gsigs s m))); [exact H|].
+  destruct left.
+  - destruct (do_shift_left (sz s) (rel s) (glay s m) x a) as [pos d] eqn:E. cbn [fst].
+    assert (Ep : pos = fst (do_shift_left (sz s) (rel s) (glay s m) x a)) by (rewrite E; reflexivity).
+    apply (InvA_rel_one s (LM m)); [exact H|rewrite Ep; apply ok_shift_left; apply (a_ok s H (LM m))|].
+    intros y Hy. rewrite Ep in Hy.
+    destruct (Nat.eq_dec y x) as [->|NE]; [|exfalso; apply Hy; apply do_shift_left_frame; exact NE].
+    destruct (in_dec Nat.eq_dec x (glay s m)) as [Hin|Hn]; [|exfalso; apply Hy; rewrite do_shift_left_notin by exact Hn; reflexivity].
+    split; [exact Hin|]. intros L HL. eapply msg_only; eauto.
+  - destruct (do_shift_right (sz s) (rel s) (glsize s m) (glay s m) x a) as [pos d] eqn:E. cbn [fst].
+    assert (Ep : pos = fst (do_shift_right (sz s) (rel s) (glsize s m) (glay s m) x a)) by (rewrite E; reflexivity).
+    apply (InvA_rel_one s (LM m)); [exact H|rewrite Ep; apply ok_shift_right; apply (a_ok s H (LM m))|].
+    intros y Hy. rewrite Ep in Hy.
+    destruct (Nat.eq_dec y x) as [->|NE]; [|exfalso; apply Hy; apply do_shift_right_frame; exact NE].
+    destruct (in_dec Nat.eq_dec x (glay s m)) as [Hin|Hn]; [|exfalso; apply Hy; rewrite do_shift_right_notin by exact Hn; reflexivity].
+    split; [exact Hin|]. intros L HL. eapply msg_only; eauto.
+Qed.
+
+Lemma inv_resize : forall s m n, InvA s -> InvA (fst (step_resize s m n)).
+Proof.
+  intros s m n H. unfold step_resize. destruct (n <? 0); [exact H|]. destruct (gbytes s m =? n); [exact H|].
+  destruct (verify_resize (sz s) (rel s) (glsize s m) (glay s m) (n * 8)) eqn:Ev; [exact H|]. cbn [fst].
+  constructor; cbn.
+  - intros [m'|u g]; cbn [lay lsz]; cbn.
+    + unfold upd. destruct (Nat.eqb_spec m' m) as [->|NE]; [|apply (a_ok s H (LM m'))].
+      eapply ok_resize; [apply (a_ok s H (LM m))|exact Ev].
+    + apply (a_ok s H (LG u g)).
+  - intros m'. unfold upd. destruct (Nat.eqb_spec m' m); [reflexivity|apply (a_lsize s H)].
+  - intros L L' x. pose proof (a_excl s H L L' x) as E. destruct L, L'; exact E.
+  - exact (a_emax s H).
+  - intros L x. pose proof (a_alloc s H L x) as E. destruct L; exact E.
+  - exact (a_unalloc s H).
+  - exact (a_munalloc s H).
+  - exact (a_refs s H).
+  - exact (a_vals s H).
+  - exact (a_size s H).
+Qed.
+
+(* --- multiplexer: remove / clear ---------------------------------------------------------------- *)
+
+(* a state that differs from s only in the groups of u (which only lose elements) and in
+   registry fields *)
+Lemma InvA_groups_shrink : forall s s' u,
+  InvA s ->
+  lcore s' = lcore (set_ugroups s (ugroups s')) ->
+  (forall u', u' <> u -> ugroups s' u' = ugroups s u') ->
+  (forall g, sub (nth g (ugroups s' u) []) (nth g (ugroups s u) [])) ->
+  ((nsig s <= u)%nat -> ugroups s' u = []) ->
+  InvA s'.
+Proof.
+  intros s s' u H Ec Eo Hs Hun.
+  eapply InvA_core; [exact Ec|].
+  eapply (InvA_shrink_lists s); try reflexivity; [exact H| |].
+  - intros [m|u' g]; cbn [lay]; [apply sub_refl|]. unfold gget. cbn.
+    destruct (Nat.eq_dec u' u) as [->|NE]; [apply Hs|rewrite Eo by exact NE; apply sub_refl].
+  - intros u' Hu'. cbn. destruct (Nat.eq_dec u' u) as [->|NE]; [apply Hun; exact Hu'|].
+    rewrite Eo by exact NE. apply (a_unalloc s H). exact Hu'.
+Qed.
+
+Lemma nth_map_nil : forall (f : list nat -> list nat) gs g, f [] = [] -> nth g (map f gs) [] = f (nth g gs []).
+Proof.
+  intros f gs g Hf. revert g. induction gs as [|a r IH]; intros g; cbn; destruct g; auto.
+Qed.
+
+Lemma sub_set_nth : forall gs n v g, sub v (nth n gs []) -> sub (nth g (set_nth gs n v) []) (nth g gs []).
+Proof.
+  intros gs n v g Hv. destruct (Nat.eq_dec n g) as [->|NE].
+  - destruct (Nat.lt_ge_cases g (length gs)).
+    + rewrite nth_set_nth_same by assumption. exact Hv.
+    + rewrite nth_set_nth_oob by assumption. apply sub_refl.
+  - rewrite nth_set_nth_other by exact NE. apply sub_refl.
+Qed.
+
+Lemma sub_remove_from_groups : forall gl gs x g, sub (nth g (remove_from_groups gs gl x) []) (nth g gs []).
+Proof.
+  unfold remove_from_groups. induction gl as [|a r IH]; intros gs x g; cbn [fold_left]; [apply sub_refl|].
+  eapply sub_trans; [apply IH|]. apply sub_set_nth. apply sub_filter.
+Qed.
+
+Lemma remove_from_groups_nil : forall gl x, remove_from_groups [] gl x = [].
+Proof. unfold remove_from_groups. induction gl; intros; cbn; auto. Qed.
+
+Lemma inv_mux_remove : forall s u x, InvA s -> InvA (fst (step_mux_remove s u x)).
+Proof.
+  intros s u x H. unfold step_mux_remove. destruct (negb (memb x (usigs s u))); [exact H|].
+  destruct (ufixed s u x).
+  - cbn [fst]. eapply (InvA_groups_shrink s _ u H).
+    + unfold lcore. cbn. autorewrite with reg. reflexivity.
+    + intros u' Hu'. cbn. autorewrite with reg. cbn. rewrite upd_other by exact Hu'. reflexivity.
+    + intros g. cbn. autorewrite with reg. cbn. rewrite upd_same.
+      rewrite (nth_map_nil (fun l => do_remove l x)) by reflexivity. apply sub_filter.
+    + intros Hu. cbn. autorewrite with reg. cbn. rewrite upd_same. rewrite (a_unalloc s H u Hu). reflexivity.
+  - destruct (ugids s u x) as [ids|]; [|exact H]. cbn [fst]. eapply (InvA_groups_shrink s _ u H).
+    + unfold lcore. cbn. autorewrite with reg. reflexivity.
+    + intros u' Hu'. cbn. autorewrite with reg. cbn. rewrite upd_other by exact Hu'. reflexivity.
+    + intros g. cbn. autorewrite with reg. cbn. rewrite upd_same. apply sub_remove_from_groups.
+    + intros Hu. cbn. autorewrite with reg. cbn. rewrite upd_same. rewrite (a_unalloc s H u Hu). apply remove_from_groups_nil.
+Qed.
+
+Lemma inv_remove : forall s m x, InvA s -> InvA (fst (step_remove s m x)).
+Proof.
+  intros s m x H. unfold step_remove. destruct (negb (memb x (gsigs s m))); [exact H|].
+  destruct (pmux s x) as [u|]; [apply inv_mux_remove; exact H|]. cbn [fst].
+  eapply (InvA_shrink_lists s); try (cbn; autorewrite with reg; reflexivity); [exact H| |].
+  - intros [m'|u g]; cbn [lay].
+    + cbn. autorewrite with reg. unfold upd. destruct (Nat.eqb_spec m' m) as [->|NE]; [apply sub_filter|apply sub_refl].
+    + unfold gget. cbn. autorewrite with reg. apply sub_refl.
+  - intros u Hu. cbn. autorewrite with reg. apply (a_unalloc s H). exact Hu.
+Qed.
+
+(* the clear-group loop: states reached keep the invariant *)
+Lemma inv_clear_group_loop : forall xs s u g, InvA s -> InvA (fst (clear_group_loop s u g xs)).
+Proof.
+  induction xs as [|x r IH]; intros s u g H; cbn [clear_group_loop]; [exact H|].
+  destruct (ufixed s u x); [apply IH; exact H|].
+  set (n := Z.to_nat g).
+  set (s1 := set_ugroups s (upd (ugroups s) u (set_nth (ugroups s u) n (do_remove (gget s u n) x)))).
+  assert (H1 : InvA s1).
+  { eapply (InvA_groups_shrink s s1 u H).
+    - reflexivity.
+    - intros u' Hu'. cbn. rewrite upd_other by exact Hu'. reflexivity.
+    - intros g'. cbn. rewrite upd_same. apply sub_set_nth. apply sub_filter.
+    - intros Hu. cbn. rewrite upd_same. rewrite (a_unalloc s H u Hu). reflexivity. }
+  destruct (ugids s1 u x) as [ids|]; [|exact H1].
+  destruct (length ids =? 1)%nat.
+  - apply IH. eapply InvA_core; [|exact H1]. unfold lcore. cbn. autorewrite with reg. reflexivity.
+  - apply IH. eapply InvA_core; [|exact H1]. reflexivity.
+Qed.
+
+Lemma inv_mux_clear_group : forall s u g, InvA s -> InvA (fst (step_mux_clear_group s u g)).
+Proof.
+  intros s u g H. unfold step_mux_clear_group. destruct (verify_gid s u g); [exact H|].
+  pose proof (inv_clear_group_loop (gget s u (Z.to_nat g)) s u g H) as P.
+  destruct (clear_group_loop s u g (gget s u (Z.to_nat g))) as [s1 p]. exact P.
+Qed.
+
+Lemma inv_fold_mux_remove : forall xs s u, InvA s -> InvA (fold_left (fun acc x => mux_remove_signal acc u x) xs s).
+Proof.
+  induction xs as [|x r IH]; intros s u H; cbn [fold_left]; [exact H|].
+  apply IH. eapply InvA_core; [|exact H]. unfold lcore. autorewrite with reg. reflexivity.
+Qed.
+
+Lemma lcore_fold_mux_remove : forall xs s u, lcore (fold_left (fun acc x => mux_remove_signal acc u x) xs s) = lcore s.
+Proof.
+  induction xs as [|x r IH]; intros s u; cbn [fold_left]; [reflexivity|].
+  rewrite IH. unfold lcore. autorewrite with reg. reflexivity.
+Qed.
+
+Lemma nth_map_const_nil : forall {A} (gs : list A) g, nth g (map (fun _ => @nil nat) gs) [] = [].
+Proof. induction gs; intros g; cbn; destruct g; auto. Qed.
+
+Lemma inv_mux_clear_all : forall s u, InvA s -> InvA (fst (step_mux_clear_all s u)).
+Proof.
+  intros s u H. unfold step_mux_clear_all. cbn [fst].
+  set (s1 := fold_left (fun acc x => mux_remove_signal acc u x) (usigs s u) s).
+  assert (H1 : InvA s1) by (apply inv_fold_mux_remove; exact H).
+  assert (E1 : lcore s1 = lcore s) by apply lcore_fold_mux_remove.
+  unfold lcore in E1. inversion E1 as [[E_1 E_2 E_3 E_4 E_5 E_6 E_7 E_8 E_9 E_10 E_11 E_12 E_13 E_14 E_15]].
+  eapply (InvA_groups_shrink s1 _ u H1).
+  - reflexivity.
+  - intros u' Hu'. cbn. rewrite upd_other by exact Hu'. reflexivity.
+  - intros g. cbn. rewrite upd_same. rewrite nth_map_const_nil. apply sub_nil.
+  - intros Hu. cbn. rewrite upd_same. rewrite (a_unalloc s1 H1 u Hu). reflexivity.
+Qed.
+
+(* --- attach to a message ---------------------------------------------------------------------- *)
+
+Lemma InvA_attach_msg : forall s m x pos' l',
+  InvA s -> ~ attached s x -> (x < nsig s)%nat -> (m < nmsg s)%nat ->
+  ok pos' (sz s) 0 (glsize s m) l' ->
+  (forall y, y <> x -> pos' y = rel s y) ->
+  (forall y, In y l' <-> y = x \/ In y (glay s m)) ->
+  InvA (set_glay (set_rel s pos') (upd (glay s) m l')).
+Proof.
+  intros s m x pos' l' H Hfree Hx Hm Hok Hfr Hin.
+  assert (Hlay : forall L, L <> LM m -> lay (set_glay (set_rel s pos') (upd (glay s) m l')) L = lay s L).
+  { intros [m'|u g] NE; cbn [lay]; [|reflexivity]. cbn. rewrite upd_other; [reflexivity|congruence]. }
+  assert (Hlm : lay (set_glay (set_rel s pos') (upd (glay s) m l')) (LM m) = l') by (cbn; apply upd_same).
+  assert (Hsub : forall L y, In y (lay (set_glay (set_rel s pos') (upd (glay s) m l')) L) -> (y = x /\ L = LM m) \/ In y (lay s L)).
+  { intros L y Hy. destruct (classic_lid L (LM m)) as [->|NE].
+    - rewrite Hlm in Hy. apply Hin in Hy. destruct Hy as [->|Hy]; [left; split; reflexivity|right; exact Hy].
+    - rewrite Hlay in Hy by exact NE. right; exact Hy. }
+  eapply (InvA_layouts s); try reflexivity; try exact H.
+  - intros L. change (rel (set_glay (set_rel s pos') (upd (glay s) m l'))) with pos'.
+    destruct (classic_lid L (LM m)) as [->|NE]; [rewrite Hlm; exact Hok|].
+    rewrite Hlay by exact NE. eapply ok_ext; [|apply (a_ok s H L)].
+    intros t Ht. split; [|reflexivity]. apply Hfr. intros ->. apply Hfree. exists L. exact Ht.
+  - intros L L' y H1 H2. destruct (Hsub _ _ H1) as [[-> ->]|A]; destruct (Hsub _ _ H2) as [[E ->]|B].
+    + reflexivity.
+    + exfalso. apply Hfree. exists L'. exact B.
+    + subst. exfalso. apply Hfree. exists L. exact A.
+    + eapply (a_excl s H); eauto.
+  - intros L y Hy. destruct (Hsub _ _ Hy) as [[-> _]|A]; [exact Hx|eapply (a_alloc s H); eauto].
+  - apply (a_unalloc s H).
+  - intros m' Hm'. cbn. rewrite upd_other by lia. apply (a_munalloc s H). exact Hm'.
+Qed.
+
+Lemma vsig_lt : forall s x, vsig s x = true -> (x < nsig s)%nat.
+Proof. intros s x. unfold vsig. intros E. apply Nat.ltb_lt. exact E. Qed.
+Lemma vmsg_lt : forall s m, vmsg s m = true -> (m < nmsg s)%nat.
+Proof. intros s m. unfold vmsg. intros E. apply Nat.ltb_lt. exact E. Qed.
+
+(* every attached signal has size >= 1; free signals get it from their kind *)
+Definition size_ok (s : state) (x : nat) : Prop := 1 <= sz s x.
+
+Lemma inv_append : forall s m x, InvA s -> ~ attached s x -> vsig s x = true -> vmsg s m = true ->
+  InvA (fst (step_append s m x)).
+Proof.
+  intros s m x H Hfree Hx Hm. pose proof (a_size s H x) as Hsz. unfold step_append. destruct (memb x (gnames s m)); [exact H|].
+  destruct (verify_append (sz s) (rel s) (glsize s m) (glay s m) x) eqn:Ev; [exact H|].
+  cbn [do_append fst]. eapply InvA_core; [unfold lcore; autorewrite with reg; reflexivity|].
+  assert (Hn : ~ In x (glay s m)) by (intros Hin; apply Hfree; exists (LM m); exact Hin).
+  apply (InvA_attach_msg s m x); try assumption; [apply vsig_lt; exact Hx|apply vmsg_lt; exact Hm| | |].
+  - apply ok_append; [apply (a_ok s H (LM m))|exact Hn|exact Hsz|apply verify_append_spec; exact Ev].
+  - intros y Hy. apply upd_other. exact Hy.
+  - intros y. rewrite in_app_iff. cbn [In]. intuition.
+Qed.
+
+Lemma inv_insert : forall s m x b, InvA s -> ~ attached s x -> vsig s x = true -> vmsg s m = true ->
+  InvA (fst (step_insert s m x b)).
+Proof.
+  intros s m x b H Hfree Hx Hm. pose proof (a_size s H x) as Hsz. unfold step_insert. destruct (memb x (gnames s m)); [exact H|].
+  destruct (verify_insert (sz s) (rel s) (glsize s m) (glay s m) x b) eqn:Ev; [exact H|].
+  cbn [do_insert fst]. eapply InvA_core; [unfold lcore; autorewrite with reg; reflexivity|].
+  assert (Hn : ~ In x (glay s m)) by (intros Hin; apply Hfree; exists (LM m); exact Hin).
+  apply (verify_insert_spec _ _ _ _ _ _ (a_ok s H (LM m))) in Ev. destruct Ev as (E1 & E2 & E3 & E4).
+  apply (InvA_attach_msg s m x); try assumption; [apply vsig_lt; exact Hx|apply vmsg_lt; exact Hm| | |].
+  - apply ok_insert_at; try assumption; try lia. apply (a_ok s H (LM m)).
+  - intros y Hy. apply upd_other. exact Hy.
+  - intros y. apply insert_at_In.
+Qed.
+
+(* --- multiplexer: insert ------------------------------------------------------------------------ *)
+
+Lemma insert_at_ext : forall pos pos' l x b, (forall t, In t l -> pos' t = pos t) -> insert_at pos' l x b = insert_at pos l x b.
+Proof.
+  induction l as [|t r IH]; intros x b He; cbn [insert_at]; [reflexivity|].
+  rewrite (He t (or_introl eq_refl)). destruct (b <? pos t); [reflexivity|].
+  f_equal. apply IH. intros y Hy. apply He. right; exact Hy.
+Qed.
+
+Lemma membZ_In : forall x l, membZ x l = true <-> In x l.
+Proof.
+  intros. unfold membZ. rewrite existsb_exists. split.
+  - intros [y [Hy E]]. apply Z.eqb_eq in E. subst. exact Hy.
+  - intros H. exists x. split; [exact H|apply Z.eqb_refl].
+Qed.
+
+Lemma dedup_spec : forall l seen, NoDup (dedup l seen) /\ (forall g, In g (dedup l seen) -> In g l /\ ~ In g seen).
+Proof.
+  induction l as [|a r IH]; intros seen; cbn [dedup]; [split; [constructor|intros g []]|].
+  destruct (membZ a seen) eqn:E.
+  - destruct (IH seen) as [A B]. split; [exact A|]. intros g Hg. destruct (B g Hg). split; [right; assumption|assumption].
+  - destruct (IH (a :: seen)) as [A B]. assert (Hn : ~ In a seen) by (intros Hin; apply membZ_In in Hin; congruence). split.
+    + constructor; [|exact A]. intros Hin. destruct (B a Hin) as [_ C]. apply C. left; reflexivity.
+    + intros g [<-|Hg]; [split; [left; reflexivity|exact Hn]|]. destruct (B g Hg) as [C D].
+      split; [right; exact C|]. intros Hin. apply D. right; exact Hin.
+Qed.
+
+Lemma first_err_none : forall {A} (f : A -> option cause) l, first_err f l = None -> forall a, In a l -> f a = None.
+Proof.
+  induction l as [|b r IH]; intros H a Hin; [contradiction|]. cbn [first_err] in H.
+  destruct (f b) eqn:E; [discriminate|]. destruct Hin as [<-|Hin]; [exact E|apply IH; assumption].
+Qed.
+
+(* the groups after an insertion: every group is either unchanged or got x inserted at b after a
+   successful verification *)
+Definition ins_or_same (s : state) (u x : nat) (b : Z) (p1 : nat -> Z) (gs' : list (list nat)) : Prop :=
+  forall g, nth g gs' [] = gget s u g
+            \/ (nth g gs' [] = insert_at p1 (gget s u g) x b
+                /\ verify_insert (sz s) (rel s) (mux_gsize s u) (gget s u g) x b = None).
+
+Lemma InvA_attach_groups : forall s u x b gs',
+  InvA s -> (x < nsig s)%nat -> (u < nsig s)%nat ->
+  (attached s x -> b = rel s x) ->
+  (forall L, In x (lay s L) -> exists g, L = LG u g) ->
+  length gs' = length (ugroups s u) ->
+  ins_or_same s u x b (rel s) gs' ->
+  InvA (set_ugroups (set_rel s (upd (rel s) x b)) (upd (ugroups s) u gs')).
+Proof.
+  intros s u x b gs' H Hx Hu Hb Hcont Hlen Hgs.
+  set (s1 := set_ugroups (set_rel s (upd (rel s) x b)) (upd (ugroups s) u gs')).
+  assert (Hlay : forall L, (forall g, L <> LG u g) -> lay s1 L = lay s L).
+  { intros [m|u' g] NE; cbn [lay]; [reflexivity|]. unfold gget. cbn. rewrite upd_other; [reflexivity|].
+    intros ->. apply (NE g). reflexivity. }
+  assert (Hlg : forall g, lay s1 (LG u g) = nth g gs' []) by (intros g; cbn [lay]; unfold gget; cbn; rewrite upd_same; reflexivity).
+  assert (Hposx : forall y, (y <> x \/ attached s x) -> upd (rel s) x b y = rel s y).
+  { intros y [NE|A]; [apply upd_other; exact NE|]. destruct (Nat.eq_dec y x) as [->|NE]; [|apply upd_other; exact NE].
+    rewrite upd_same. apply Hb. exact A. }
+  assert (Hsub : forall L y, In y (lay s1 L) -> (y = x /\ exists g, L = LG u g) \/ In y (lay s L)).
+  { intros L y Hy. destruct L as [m|u' g]; [right; exact Hy|].
+    destruct (Nat.eq_dec u' u) as [->|NE]; [|right; rewrite Hlay in Hy; [exact Hy|intros g' E; congruence]].
+    rewrite Hlg in Hy. destruct (Hgs g) as [E|[E _]]; rewrite E in Hy; [right; exact Hy|].
+    apply insert_at_In in Hy. destruct Hy as [->|Hy]; [left; split; [reflexivity|exists g; reflexivity]|right; exact Hy]. }
+  eapply (InvA_layouts s); try reflexivity; try exact H.
+  - intros L. change (rel s1) with (upd (rel s) x b).
+    assert (Hsame : forall L', lay s1 L' = lay s L' -> ok (upd (rel s) x b) (sz s) 0 (lsz s L') (lay s1 L')).
+    { intros L' E. rewrite E. eapply ok_ext; [|apply (a_ok s H L')]. intros t Ht. split; [|reflexivity].
+      apply Hposx. destruct (Nat.eq_dec t x) as [->|NE]; [right; exists L'; exact Ht|left; exact NE]. }
+    destruct L as [m|u' g]; [apply Hsame; reflexivity|].
+    destruct (Nat.eq_dec u' u) as [->|NE]; [|apply Hsame; apply Hlay; intros g' E; congruence].
+    destruct (Hgs g) as [E|[E Hv]]; [apply Hsame; rewrite Hlg; exact E|].
+    rewrite Hlg, E. cbn [lsz].
+    pose proof (a_ok s H (LG u g)) as Hok. cbn [lay lsz] in Hok.
+    apply (verify_insert_spec _ _ _ _ _ _ Hok) in Hv. destruct Hv as (V1 & V2 & V3 & V4).
+    assert (Hn : ~ In x (gget s u g)).
+    { intros Hin. assert (A : attached s x) by (exists (LG u g); exact Hin). specialize (Hb A). subst b.
+      destruct (V4 x Hin); pose proof (a_size s H x); lia. }
+    apply ok_insert_at; try assumption; try lia. apply (a_size s H).
+  - intros L L' y H1 H2. destruct (Hsub _ _ H1) as [[-> [g ->]]|A]; destruct (Hsub _ _ H2) as [[E [g' ->]]|B].
+    + reflexivity.
+    + destruct (Hcont _ B) as [g' ->]. reflexivity.
+    + subst. destruct (Hcont _ A) as [g0 ->]. reflexivity.
+    + eapply (a_excl s H); eauto.
+  - intros L y Hy. destruct (Hsub _ _ Hy) as [[-> _]|A]; [exact Hx|eapply (a_alloc s H); eauto].
+  - intros u' Hu'. cbn. rewrite upd_other by lia. apply (a_unalloc s H). exact Hu'.
+  - apply (a_munalloc s H).
+Qed.
+
+Lemma verify_insert_notin : forall s u g x b, InvA s -> (attached s x -> b = rel s x) ->
+  verify_insert (sz s) (rel s) (mux_gsize s u) (gget s u g) x b = None -> ~ In x (gget s u g).
+Proof.
+  intros s u g x b H Hb Hv Hin.
+  pose proof (a_ok s H (LG u g)) as Hok. cbn [lay lsz] in Hok.
+  apply (verify_insert_spec _ _ _ _ _ _ Hok) in Hv. destruct Hv as (V1 & V2 & V3 & V4).
+  assert (A : attached s x) by (exists (LG u g); exact Hin). specialize (Hb A). subst b.
+  destruct (V4 x Hin); pose proof (a_size s H x); lia.
+Qed.
+
+Lemma insert_at_upd_self : forall pos l x b v, ~ In x l -> insert_at (upd pos x v) l x b = insert_at pos l x b.
+Proof.
+  intros. apply insert_at_ext. intros t Ht. apply upd_other. intros ->. contradiction.
+Qed.
+
+Lemma nth_map_lt : forall {A B} (f : A -> B) l g d d', (g < length l)%nat -> nth g (map f l) d = f (nth g l d').
+Proof.
+  intros A B f l. induction l as [|a r IH]; intros g d d' Hg; cbn in *; [lia|].
+  destruct g; [reflexivity|]. apply IH. lia.
+Qed.
+
+Lemma ins_all_spec : forall s u x b, InvA s -> (attached s x -> b = rel s x) ->
+  first_err (fun l => verify_insert (sz s) (rel s) (mux_gsize s u) l x b) (ugroups s u) = None ->
+  ins_or_same s u x b (rel s) (snd (insert_all (rel s) (ugroups s u) x b)).
+Proof.
+  intros s u x b H Hb Hv.
+  intros g. unfold gget.
+  assert (Hall : forall g', (g' < length (ugroups s u))%nat ->
+            verify_insert (sz s) (rel s) (mux_gsize s u) (nth g' (ugroups s u) []) x b = None).
+  { intros g' Hg'. apply (first_err_none _ _ Hv). apply nth_In. exact Hg'. }
+  destruct (Nat.lt_ge_cases g (length (ugroups s u))) as [Hlt|Hge].
+  + right. split; [|apply Hall; exact Hlt].
+    pose proof (verify_insert_notin s u g x b H Hb (Hall g Hlt)) as Hn. unfold gget in Hn.
+    destruct (ugroups s u) as [|l0 r] eqn:Eg; [cbn in Hlt; lia|]. cbn [insert_all snd].
+    destruct g as [|g']; [reflexivity|]. cbn [nth] in *.
+    assert (Hg' : (g' < length r)%nat) by (cbn [length] in Hlt; lia).
+    rewrite (nth_map_lt _ r g' [] [] Hg').
+    apply insert_at_upd_self. exact Hn.
+  + left. rewrite (nth_overflow (ugroups s u)) by exact Hge.
+    destruct (ugroups s u) as [|l0 r]; [cbn; destruct g; reflexivity|]. cbn [insert_all snd].
+    rewrite nth_overflow; [reflexivity|]. cbn in *. rewrite map_length. exact Hge.
+Qed.
+
+Lemma ins_all_pos : forall pos gs x b, gs <> [] -> fst (insert_all pos gs x b) = upd pos x b.
+Proof. intros pos gs x b Hne. destruct gs; [congruence|reflexivity]. Qed.
+Lemma ins_all_length : forall pos gs x b, length (snd (insert_all pos gs x b)) = length gs.
+Proof. intros. destruct gs; cbn; [reflexivity|]. rewrite map_length. reflexivity. Qed.
+
+Lemma ins_from_spec : forall p1 x b ids groups k,
+  NoDup (map Z.to_nat ids) ->
+  nth k (insert_ids_from p1 groups ids x b) [] =
+  if memb k (map Z.to_nat ids) && (k <? length groups)%nat then insert_at p1 (nth k groups []) x b else nth k groups [].
+Proof.
+  induction ids as [|g r IH]; intros groups k Hnd; cbn [insert_ids_from map memb existsb].
+  - reflexivity.
+  - inversion Hnd as [|? ? Hn Hnd']; subst. rewrite IH by exact Hnd'. rewrite set_nth_length.
+    fold (memb k (map Z.to_nat r)).
+    destruct (Nat.eqb_spec k (Z.to_nat g)) as [->|NE].
+    + assert (E : memb (Z.to_nat g) (map Z.to_nat r) = false).
+      { destruct (memb (Z.to_nat g) (map Z.to_nat r)) eqn:E; [|reflexivity]. apply memb_In in E. contradiction. }
+      rewrite E. cbn [orb andb].
+      destruct (Nat.ltb_spec (Z.to_nat g) (length groups)).
+      * rewrite nth_set_nth_same by assumption. reflexivity.
+      * rewrite nth_set_nth_oob by assumption. reflexivity.
+    + cbn [orb]. rewrite nth_set_nth_other by congruence. reflexivity.
+Qed.
+
+Lemma ins_from_length : forall p1 x b ids groups, length (insert_ids_from p1 groups ids x b) = length groups.
+Proof. induction ids as [|g r IH]; intros groups; cbn [insert_ids_from]; [reflexivity|]. rewrite IH. apply set_nth_length. Qed.
+
+Lemma NoDup_map_to_nat : forall ids, NoDup ids -> (forall g, In g ids -> 0 <= g) -> NoDup (map Z.to_nat ids).
+Proof.
+  induction ids as [|a r IH]; intros Hnd Hpos; cbn [map]; [constructor|].
+  inversion Hnd as [|? ? Hn Hnd']; subst. constructor.
+  - intros Hin. apply in_map_iff in Hin. destruct Hin as [c [Ec Hc]].
+    assert (c = a) by (pose proof (Hpos a (or_introl eq_refl)); pose proof (Hpos c (or_intror Hc)); lia). subst. contradiction.
+  - apply IH; [exact Hnd'|]. intros g Hg. apply Hpos. right; exact Hg.
+Qed.
+
+Lemma ins_ids_spec : forall s u x b ids, InvA s -> (attached s x -> b = rel s x) ->
+  NoDup ids -> (forall g, In g ids -> 0 <= g) ->
+  (forall g, In g ids -> verify_insert (sz s) (rel s) (mux_gsize s u) (gget s u (Z.to_nat g)) x b = None) ->
+  ins_or_same s u x b (rel s) (snd (insert_ids (rel s) (ugroups s u) ids x b)).
+Proof.
+  intros s u x b ids H Hb Hnd Hpos Hv k.
+  destruct ids as [|g r]; [left; reflexivity|]. cbn [insert_ids snd].
+  assert (Hnd' : NoDup (map Z.to_nat (g :: r))) by (apply NoDup_map_to_nat; assumption).
+  cbn [map] in Hnd'. inversion Hnd' as [|? ? Hn Hnd'']; subst.
+  rewrite ins_from_spec by exact Hnd''. rewrite set_nth_length.
+  destruct (memb k (map Z.to_nat r) && (k <? length (ugroups s u))%nat) eqn:E.
+  - apply andb_true_iff in E. destruct E as [E1 E2]. apply memb_In in E1.
+    assert (NE : Z.to_nat g <> k) by (intros <-; contradiction).
+    rewrite nth_set_nth_other by exact NE.
+    apply in_map_iff in E1. destruct E1 as [c [Ec Hc]]. subst k.
+    right. pose proof (Hv c (or_intror Hc)) as Hvc. split; [|exact Hvc].
+    apply insert_at_upd_self. eapply verify_insert_notin; eauto.
+  - destruct (Nat.eq_dec (Z.to_nat g) k) as [<-|NE].
+    + destruct (Nat.lt_ge_cases (Z.to_nat g) (length (ugroups s u))).
+      * rewrite nth_set_nth_same by assumption. right. split; [reflexivity|]. apply Hv. left; reflexivity.
+      * rewrite nth_set_nth_oob by assumption. left. reflexivity.
+    + rewrite nth_set_nth_other by exact NE. left. reflexivity.
+Qed.
+
+Lemma ins_ids_pos : forall pos gs ids x b, ids <> [] -> fst (insert_ids pos gs ids x b) = upd pos x b.
+Proof. intros. destruct ids; [congruence|reflexivity]. Qed.
+Lemma ins_ids_length : forall pos gs ids x b, length (snd (insert_ids pos gs ids x b)) = length gs.
+Proof. intros. destruct ids; cbn; [reflexivity|]. rewrite ins_from_length. apply set_nth_length. Qed.
